@@ -323,6 +323,7 @@ c01 = pool_prop(
     "withdrawals, settlement failures) on both drivers; after every operation the ledger total (Stats.TotalCredit and the "
     "sum of all account and trial balances) must equal the model's; distinct = (operation, outcome class)",
     lambda tier: CONC_MC + [("VipStoreMC", "VipStoreMC_bal.cfg")] + ([("VipPoolMC", "VipPoolMC_bill_q.cfg")] if tier == "quick" else [("VipPoolMC", "VipPoolMC_bill.cfg")]),
+    cfg=dict(prelink=True),
     weights=dict(update=40, sleep=14, forged=5, withdraw=8, credit=4, addnode=5, settlemode=4, deposit=3),
     extra_jobs=store_ledger_jobs)
 
@@ -332,11 +333,12 @@ c02 = pool_prop(
     "incl. non-hosts and peers sharing the client's wallet, reconnects between updates); every balance and the balance "
     "in every update reply must equal the model's floor(elapsed*price/interval) per active peer",
     lambda tier: [("VipStoreMC", "VipStoreMC_bal.cfg")] + ([("VipPoolMC", "VipPoolMC_bill_q.cfg")] if tier == "quick" else [("VipPoolMC", "VipPoolMC_bill.cfg")]),
-    cfg=dict(longsleep=True),
+    cfg=dict(longsleep=True, prelink=True),
     weights=dict(update=50, sleep=20, forged=2, withdraw=1, peer=4, close=1, reopen=1, mode=1, stale=1, addnode=6, reconnect=6),
     extra_jobs=lambda s, tier, work: stack_jobs("c02", "C02", s, tier, work) + fine_jobs(
         "c02", "C02", s, tier, work, weights=dict(update=50, sleep=25, forged=1, addnode=5, reconnect=6, peer=2)) + magnitude_jobs(
-        "c02", "C02", s, tier, work, weights=dict(update=55, sleep=30, forged=1, addnode=4, reconnect=4, peer=1, withdraw=0, status=0, stats=0)))
+        "c02", "C02", s, tier, work, weights=dict(update=55, sleep=30, forged=1, addnode=4, reconnect=4, peer=1, withdraw=0, status=0, stats=0)) + race_jobs(
+        "c02race", s, tier, work, "ledger", focus="C01race"))      # real parallelism: whatever hosts are credited the client is debited
 
 c03 = pool_prop(
     "c03", "C03",
@@ -344,7 +346,7 @@ c03 = pool_prop(
     "keep-alives are refused for balance, the reported balance, the disconnect instructions sent to hosts; plus the built `vipnode pool` "
     "binary started with each --contract.min-balance (default, off, 0, 0 gwei, -1 ether, 1 gwei) x --contract.price: complete 60-case table VipPoolCfg",
     lambda tier: [("VipStoreMC", "VipStoreMC_bal.cfg")] + ([("VipPoolMC", "VipPoolMC_bill_q.cfg")] if tier == "quick" else [("VipPoolMC", "VipPoolMC_bill.cfg")]),
-    cfg=dict(minbal=None, staircase=True),
+    cfg=dict(minbal=None, staircase=True, prelink=True),
     weights=dict(update=40, sleep=14, deposit=8, credit=8, addnode=8, reconnect=10, client=3, forged=2),
     extra_jobs=lambda s, tier, work: fine_jobs("c03", "C03", s, tier, work, cfg=dict(minbal=None, staircase=True),
                                                weights=dict(update=40, sleep=18, deposit=8, credit=8, addnode=6, reconnect=8)) + c03_binary(s, tier, work))
